@@ -555,7 +555,7 @@ func (r *Runner) Run() int {
 				fmt.Printf("KNOWN-FINDING: property=%s %s %s\n", r.Prop, f.ID, f.What)
 				kfReproduced[f.ID]++
 			} else if len(viols) == 0 {
-				fmt.Printf("NOT-REPRODUCED %s (witness now passes; entry is stale)\n", f.ID)
+				fmt.Printf("NOT-REPRODUCED %s (the committed witness passed on this run)\n", f.ID)
 			}
 			for i := range viols {
 				if viols[i].Class != f.Failure && r.KF.Explain(r.Prop, &viols[i]) == "" {
@@ -839,7 +839,7 @@ func (r *Runner) ReplayFile(path string) int {
 		return 2
 	}
 	c := rf.Viol.Case
-	if rf.Property == "" {
+	if c.Kind == "" {
 		// a witness file
 		var w Witness
 		json.Unmarshal(b, &w)
